@@ -142,3 +142,14 @@ CHECKS["C10"] = {
     "units": [{"name": "c10", "pkg": "c10", "run": "^Test", "shards": 8, "env": {"VERIF_TRACK_CURRENT": "1"}}],
     "expect_checks": ["c10.robust", "c10.enumerate"],
 }
+
+CHECKS["C20"] = {
+    "level": "exploration",
+    "technique": "model-based property testing (rapid) in package http2 via go test -overlay: generated open/close/adjust/push/pop/window/max-frame histories for the round-robin, random and priority schedulers (priority: MaxClosed/MaxIdle in {0,1,2,10}, throttle on/off) against a list-based reference scheduler; structural invariant of the priority tree after every operation; final drain with open windows",
+    "rule": "case = scheduler configuration + 1..60 operations permitted by the WriteScheduler interface. Non-trivial = the history closes a stream that still has frames queued, drives a stream or connection window to <= 0 and (priority scheduler) contains an exclusive or self-dependent adjust; distinct by hash of the operation list.",
+    "level_text": "Generated histories against a reference: every queued frame is popped exactly once unless its stream was closed, per-stream order, control frames first, DATA pieces within stream window / connection window / max frame size and debited exactly, Pop()==false only when nothing is sendable, and the priority tree stays a tree rooted at stream 0 with consistent links, byte sums and retention caps.",
+    "level_note": "Trusted: the reference model in overlay/http2/sched_test.go (per-stream FIFO lists, control list, window integers). Only calls the interface permits are generated (no double open, no HEADERS/DATA on a stream that is not open, client streams opened in increasing id order).",
+    "assumptions": ["the random scheduler's choices depend on map iteration order; the oracle is a validity predicate, so this affects reproducibility of a failing history only"],
+    "units": [{"name": "c20", "pkg": "pkg/http2", "overlay": "http2", "run": "^TestVerifSched$", "shards": 12}],
+    "expect_checks": ["c20.sched"],
+}
